@@ -484,4 +484,393 @@ theorem ackHook_run : ∀ (evs : List Ev) (s : St), (run s evs).ackHook = s.ackH
   | nil => intro s; simp [run_nil]
   | cons e r ih => intro s; rw [run_cons, ih, ackHook_step, List.flatMap_cons, List.append_assoc]
 
+/-! ### the store and the waiters -/
+
+structure SInv (s : St) : Prop where
+  w : ∀ q, q ∈ s.waiters ↔ (alGet q s.store).isSome
+  st : ∀ q, (alGet q s.store).isSome ↔ (q ∈ s.sent.map (·.seq) ∧ q ∉ s.ackHook.map (·.1))
+  ak : ∀ x ∈ s.ackHook, x.1 ≤ s.seq
+
+theorem SInv_init (p : Policy) (rev : List (DataID × Nat)) : SInv { policy := p, rev := rev } := by
+  constructor <;> simp [alGet]
+
+theorem SInv_addBuf (s : St) (d : DataID) (ps : List Point) (h : SInv s) : SInv (addBuf s d ps) :=
+  ⟨h.w, h.st, h.ak⟩
+
+theorem SInv_closeRequest (s : St) (h : SInv s) : SInv (closeRequest s) :=
+  ⟨h.w, h.st, h.ak⟩
+
+theorem SInv_cut (s : St) (h : SInv s) : SInv (cut s) := by
+  by_cases hb : s.buf = []
+  · rw [cut_nil s hb]; exact h
+  · rw [cut_cons s hb]
+    constructor
+    · intro q
+      show q ∈ s.waiters ++ [s.seq + 1] ↔ (alGet q (alPut (s.seq + 1) (toGroups s.buf) s.store)).isSome
+      by_cases hq : q = s.seq + 1
+      · subst hq; simp [alGet_alPut_self]
+      · rw [alGet_alPut_ne hq, ← h.w]; simp [hq]
+    · intro q
+      show (alGet q (alPut (s.seq + 1) (toGroups s.buf) s.store)).isSome ↔
+        (q ∈ (s.sent ++ [(⟨s.seq + 1, (toWire s.rev s.buf).1, (toWire s.rev s.buf).2⟩ : Chunk)]).map (·.seq) ∧ q ∉ s.ackHook.map (·.1))
+      by_cases hq : q = s.seq + 1
+      · subst hq
+        have hn : s.seq + 1 ∉ s.ackHook.map (·.1) := by
+          intro hm
+          obtain ⟨x, hx, hx'⟩ := List.mem_map.1 hm
+          have := h.ak x hx
+          omega
+        simp [alGet_alPut_self, hn]
+      · rw [alGet_alPut_ne hq, h.st]; simp [hq]
+    · intro x hx
+      exact Nat.le_succ_of_le (h.ak x hx)
+
+theorem SInv_result (s : St) (q c : Nat) (hq : q ≤ s.seq) (h : SInv s) : SInv (result s q c) := by
+  simp only [result]
+  split
+  · constructor
+    · intro q'
+      show q' ∈ s.waiters.filter (· ≠ q) ↔ (alGet q' (alDel q s.store)).isSome
+      by_cases hq' : q' = q
+      · subst hq'; simp [alGet_alDel_self]
+      · rw [alGet_alDel_ne hq', ← h.w]; simp [hq']
+    · intro q'
+      show (alGet q' (alDel q s.store)).isSome ↔ (q' ∈ s.sent.map (·.seq) ∧ q' ∉ (s.ackHook ++ [(q, c)]).map (·.1))
+      by_cases hq' : q' = q
+      · subst hq'; simp [alGet_alDel_self]
+      · rw [alGet_alDel_ne hq', h.st]; simp [hq']
+    · intro x hx
+      show x.1 ≤ s.seq
+      rcases List.mem_append.1 hx with hx | hx
+      · exact h.ak x hx
+      · rw [List.mem_singleton.1 hx]; exact hq
+  · next hc =>
+    have hc' : q ∉ s.waiters := by simpa using hc
+    constructor
+    · exact h.w
+    · intro q'
+      show (alGet q' s.store).isSome ↔ (q' ∈ s.sent.map (·.seq) ∧ q' ∉ (s.ackHook ++ [(q, c)]).map (·.1))
+      by_cases hq' : q' = q
+      · subst hq'
+        rw [← h.w]; simp [hc']
+      · rw [h.st]; simp [hq']
+    · intro x hx
+      show x.1 ≤ s.seq
+      rcases List.mem_append.1 hx with hx | hx
+      · exact h.ak x hx
+      · rw [List.mem_singleton.1 hx]; exact hq
+
+theorem result_seq (s : St) (q c : Nat) : (result s q c).seq = s.seq := by
+  obtain ⟨st, wa, h⟩ := result_frame s q c
+  rw [h]
+
+theorem SInv_results (rs : List (Nat × Nat)) : ∀ (s : St), (∀ x ∈ rs, x.1 ≤ s.seq) → SInv s →
+    SInv (rs.foldl (fun st r => result st r.1 r.2) s) := by
+  induction rs with
+  | nil => intro s _ h; exact h
+  | cons r rs ih =>
+    intro s hk h
+    rw [List.foldl_cons]
+    refine ih _ ?_ (SInv_result s r.1 r.2 (hk r List.mem_cons_self) h)
+    intro x hx
+    rw [result_seq]
+    exact hk x (List.mem_cons_of_mem _ hx)
+
+theorem SInv_ack (s : St) (rs : List (Nat × Nat)) (als : List (Nat × DataID)) (hk : ∀ x ∈ rs, x.1 ≤ s.seq)
+    (h : SInv s) : SInv (ack s rs als) := by
+  unfold ack
+  exact SInv_results rs _ hk ⟨h.w, h.st, h.ak⟩
+
+theorem SInv_step (s : St) (e : Ev) (hk : ∀ x ∈ res e, x.1 ≤ s.seq) (h : SInv s) : SInv (step s e) := by
+  cases e with
+  | accept d ps =>
+    show SInv (accept s d ps)
+    rw [accept_eq]
+    split
+    · exact SInv_cut _ (SInv_addBuf _ _ _ h)
+    · exact SInv_addBuf _ _ _ h
+  | tick =>
+    show SInv (tick s)
+    unfold tick
+    split
+    · exact SInv_cut _ h
+    · exact h
+  | flush => exact SInv_cut _ h
+  | ack rs als => exact SInv_ack s rs als hk h
+  | closeFlush => exact SInv_cut _ h
+  | closeRequest => exact SInv_closeRequest _ h
+
+/-- every result of every ack refers to a sequence number already issued when the ack arrives -/
+def known (s : St) : List Ev → Bool
+  | [] => true
+  | e :: r => (res e).all (fun x => decide (x.1 ≤ s.seq)) && known (step s e) r
+
+theorem SInv_run : ∀ (evs : List Ev) (s : St), known s evs = true → SInv s → SInv (run s evs) := by
+  intro evs
+  induction evs with
+  | nil => intro s _ h; exact h
+  | cons e r ih =>
+    intro s hk h
+    simp only [known, Bool.and_eq_true, List.all_eq_true, decide_eq_true_eq] at hk
+    rw [run_cons]
+    exact ih _ hk.2 (SInv_step s e hk.1 h)
+
+/-! ### alias round trip -/
+
+def RevSane (rev : List (DataID × Nat)) : Prop := ∀ e ∈ rev, ∀ e' ∈ rev, e.2 = e'.2 → e.1 = e'.1
+
+def Matches (rev : List (DataID × Nat)) (c : Chunk) (h : Nat × Groups) : Prop :=
+  ∀ rev', (∀ e ∈ rev, e ∈ rev') → RevSane rev' → c.groups.map (resolve rev') = h.2.map some
+
+theorem revGet_some (rev : List (DataID × Nat)) (d : DataID) (a : Nat) (h : revGet rev d = some a) : (d, a) ∈ rev := by
+  unfold revGet at h
+  cases hf : rev.find? (·.1 = d) with
+  | none => rw [hf] at h; cases h
+  | some x =>
+    rw [hf] at h
+    simp only [Option.map_some, Option.some.injEq] at h
+    have h1 := List.find?_some hf
+    have h2 := List.mem_of_find?_eq_some hf
+    simp only [decide_eq_true_eq] at h1
+    obtain ⟨x1, x2⟩ := x
+    simp only at h h1
+    subst h h1
+    exact h2
+
+theorem resolve_wireOf (rev rev' : List (DataID × Nat)) (e : DataID × List Point)
+    (hsub : ∀ x ∈ rev, x ∈ rev') (hs : RevSane rev') : resolve rev' (wireOf rev e) = some ⟨e.1, e.2⟩ := by
+  unfold wireOf
+  cases h : revGet rev e.1 with
+  | none => rfl
+  | some a =>
+    have hm := hsub _ (revGet_some rev e.1 a h)
+    show (rev'.find? (·.2 = a)).map (fun x => (⟨x.1, e.2⟩ : Group)) = some ⟨e.1, e.2⟩
+    cases hf : rev'.find? (·.2 = a) with
+    | none =>
+      have := List.find?_eq_none.1 hf _ hm
+      simp at this
+    | some y =>
+      have h1 := List.find?_some hf
+      have h2 := List.mem_of_find?_eq_some hf
+      simp only [decide_eq_true_eq] at h1
+      have := hs y h2 (e.1, a) hm h1
+      simp only at this
+      simp [this]
+
+theorem Matches_cut (rev : List (DataID × Nat)) (buf : List (DataID × List Point)) (q : Nat) :
+    Matches rev ⟨q, (toWire rev buf).1, (toWire rev buf).2⟩ (q, toGroups buf) := by
+  intro rev' hsub hs
+  show ((toWire rev buf).1).map (resolve rev') = (toGroups buf).map some
+  rw [toWire_fst]
+  unfold toGroups
+  rw [List.map_map, List.map_map]
+  apply List.map_congr_left
+  intro e _
+  exact resolve_wireOf rev rev' e hsub hs
+
+theorem Matches_mono (rev rev2 : List (DataID × Nat)) (c : Chunk) (h : Nat × Groups) (hsub : ∀ e ∈ rev, e ∈ rev2)
+    (hm : Matches rev c h) : Matches rev2 c h :=
+  fun rev' hsub' hs => hm rev' (fun e he => hsub' e (hsub e he)) hs
+
+theorem learn_nil (rev : List (DataID × Nat)) : learn rev [] = rev := rfl
+theorem learn_cons (rev : List (DataID × Nat)) (a : Nat) (d : DataID) (r : List (Nat × DataID)) :
+    learn rev ((a, d) :: r) = if (revGet rev d).isSome then learn rev r else learn (rev ++ [(d, a)]) r := rfl
+
+theorem learn_subset (als : List (Nat × DataID)) : ∀ (rev : List (DataID × Nat)), ∀ e ∈ rev, e ∈ learn rev als := by
+  induction als with
+  | nil => intro rev e he; exact he
+  | cons x r ih =>
+    obtain ⟨a, d⟩ := x
+    intro rev e he
+    rw [learn_cons]
+    split
+    · exact ih rev e he
+    · exact ih _ e (List.mem_append_left _ he)
+
+theorem learn_prov (als : List (Nat × DataID)) : ∀ (rev : List (DataID × Nat)),
+    ∀ e ∈ learn rev als, e ∈ rev ∨ (e.2, e.1) ∈ als := by
+  induction als with
+  | nil => intro rev e he; exact Or.inl he
+  | cons x r ih =>
+    obtain ⟨a, d⟩ := x
+    intro rev e he
+    rw [learn_cons] at he
+    split at he
+    · rcases ih rev e he with h | h
+      · exact Or.inl h
+      · exact Or.inr (List.mem_cons_of_mem _ h)
+    · rcases ih _ e he with h | h
+      · rcases List.mem_append.1 h with h | h
+        · exact Or.inl h
+        · rw [List.mem_singleton.1 h]; exact Or.inr List.mem_cons_self
+      · exact Or.inr (List.mem_cons_of_mem _ h)
+
+structure WInv (s : St) : Prop where
+  len : s.sent.length = s.sendHook.length
+  m : ∀ x ∈ s.sent.zip s.sendHook, Matches s.rev x.1 x.2
+
+theorem WInv_init (p : Policy) (rev : List (DataID × Nat)) : WInv { policy := p, rev := rev } := by
+  constructor <;> simp
+
+theorem WInv_addBuf (s : St) (d : DataID) (ps : List Point) (h : WInv s) : WInv (addBuf s d ps) := ⟨h.len, h.m⟩
+
+theorem WInv_closeRequest (s : St) (h : WInv s) : WInv (closeRequest s) := ⟨h.len, h.m⟩
+
+theorem WInv_cut (s : St) (h : WInv s) : WInv (cut s) := by
+  by_cases hb : s.buf = []
+  · rw [cut_nil s hb]; exact h
+  · rw [cut_cons s hb]
+    constructor
+    · simp [h.len]
+    · intro x hx
+      simp only [List.zip_append h.len, List.mem_append, List.zip_cons_cons, List.zip_nil_right, List.mem_singleton] at hx
+      rcases hx with hx | hx
+      · exact h.m x hx
+      · subst hx; exact Matches_cut _ _ _
+
+theorem WInv_ack (s : St) (rs : List (Nat × Nat)) (als : List (Nat × DataID)) (h : WInv s) : WInv (ack s rs als) := by
+  obtain ⟨st, wa, h'⟩ := ack_frame s rs als
+  rw [h']
+  exact ⟨h.len, fun x hx => Matches_mono _ _ _ _ (learn_subset als s.rev) (h.m x hx)⟩
+
+theorem WInv_run (evs : List Ev) (s : St) (h : WInv s) : WInv (run s evs) :=
+  run_ind WInv_addBuf WInv_cut WInv_ack WInv_closeRequest evs s h
+
+theorem WInv_get (s : St) (h : WInv s) (hs : RevSane s.rev) (i : Nat) (hi : i < s.sent.length) (hj : i < s.sendHook.length) :
+    s.sent[i].groups.map (resolve s.rev) = s.sendHook[i].2.map some := by
+  have hl : i < (s.sent.zip s.sendHook).length := by rw [List.length_zip]; omega
+  have hm : (s.sent[i], s.sendHook[i]) ∈ s.sent.zip s.sendHook := by
+    rw [← List.getElem_zip (h := hl)]; exact List.getElem_mem hl
+  exact h.m _ hm s.rev (fun e he => he) hs
+
+/-- alias announcements of one event -/
+def ann : Ev → List (Nat × DataID)
+  | .ack _ als => als
+  | _ => []
+
+theorem rev_step (s : St) (e : Ev) : ∀ x ∈ (step s e).rev, x ∈ s.rev ∨ (x.2, x.1) ∈ ann e := by
+  cases e with
+  | accept d ps =>
+    intro x hx
+    have : (accept s d ps).rev = s.rev := by
+      rw [accept_eq]; split
+      · rw [cut_rev]; rfl
+      · rfl
+    exact Or.inl (this ▸ hx)
+  | tick =>
+    intro x hx
+    have : (tick s).rev = s.rev := by
+      unfold tick; split
+      · rw [cut_rev]
+      · rfl
+    exact Or.inl (this ▸ hx)
+  | flush => intro x hx; exact Or.inl (cut_rev s ▸ hx)
+  | ack rs als =>
+    intro x hx
+    obtain ⟨st, wa, h'⟩ := ack_frame s rs als
+    have : (ack s rs als).rev = learn s.rev als := by rw [h']
+    exact learn_prov als s.rev x (this ▸ hx)
+  | closeFlush => intro x hx; exact Or.inl (cut_rev s ▸ hx)
+  | closeRequest => intro x hx; exact Or.inl hx
+
+theorem rev_run : ∀ (evs : List Ev) (s : St), ∀ x ∈ (run s evs).rev, x ∈ s.rev ∨ (x.2, x.1) ∈ evs.flatMap ann := by
+  intro evs
+  induction evs with
+  | nil => intro s x hx; exact Or.inl hx
+  | cons e r ih =>
+    intro s x hx
+    rw [run_cons] at hx
+    rw [List.flatMap_cons, List.mem_append]
+    rcases ih _ x hx with h | h
+    · rcases rev_step s e x h with h | h
+      · exact Or.inl h
+      · exact Or.inr (Or.inl h)
+    · exact Or.inr (Or.inr h)
+
+/-! ### flush policies -/
+
+theorem accept_cut (s : St) (d : DataID) (ps : List Point) (h : s.policy.isFlush (s.bufPayload + payloadLen ps) = true) :
+    (accept s d ps).buf = [] ∧ (accept s d ps).sent.length = s.sent.length + 1 ∧
+    (accept s d ps).sendHook.getLast? = some (s.seq + 1, toGroups (bufAdd s.buf d ps)) := by
+  rw [accept_eq, if_pos h]
+  have hb : (addBuf s d ps).buf ≠ [] := bufAdd_ne_nil _ _ _
+  rw [cut_cons _ hb]
+  refine ⟨rfl, ?_, ?_⟩
+  · show (s.sent ++ [_]).length = _; simp
+  · show (s.sendHook ++ [(s.seq + 1, toGroups (bufAdd s.buf d ps))]).getLast? = _; simp
+
+theorem accept_nocut (s : St) (d : DataID) (ps : List Point) (h : s.policy.isFlush (s.bufPayload + payloadLen ps) = false) :
+    (accept s d ps).sent = s.sent ∧ (accept s d ps).buf = bufAdd s.buf d ps := by
+  rw [accept_eq, h]
+  exact ⟨rfl, rfl⟩
+
+theorem accept_policy (s : St) (d : DataID) (ps : List Point) : (accept s d ps).policy = s.policy := by
+  rw [accept_eq]; split
+  · rw [cut_policy]; rfl
+  · rfl
+
+/-- the event is neither Flush nor the final flush of Close -/
+def nfc : Ev → Bool
+  | .flush => false
+  | .closeFlush => false
+  | _ => true
+
+theorem none_step (s : St) (e : Ev) (hp : s.policy = .none) (he : nfc e = true) :
+    (step s e).policy = .none ∧ (step s e).sent = s.sent := by
+  cases e with
+  | accept d ps =>
+    refine ⟨(accept_policy s d ps).trans hp, ?_⟩
+    have : s.policy.isFlush (s.bufPayload + payloadLen ps) = false := by rw [hp]; rfl
+    exact (accept_nocut s d ps this).1
+  | tick =>
+    have : tick s = s := by unfold tick; rw [hp]; rfl
+    show (tick s).policy = .none ∧ (tick s).sent = s.sent
+    rw [this]; exact ⟨hp, rfl⟩
+  | flush => cases he
+  | ack rs als =>
+    obtain ⟨st, wa, h'⟩ := ack_frame s rs als
+    show (ack s rs als).policy = .none ∧ (ack s rs als).sent = s.sent
+    rw [h']; exact ⟨hp, rfl⟩
+  | closeFlush => cases he
+  | closeRequest => exact ⟨hp, rfl⟩
+
+theorem none_run : ∀ (evs : List Ev) (s : St), s.policy = .none → evs.all nfc = true → (run s evs).sent = s.sent := by
+  intro evs
+  induction evs with
+  | nil => intro s _ _; rfl
+  | cons e r ih =>
+    intro s hp he
+    simp only [List.all_cons, Bool.and_eq_true] at he
+    obtain ⟨h1, h2⟩ := none_step s e hp he.1
+    rw [run_cons, ih _ h1 he.2, h2]
+
+theorem imm_step (s : St) (e : Ev) (hp : s.policy = .immediate) (hb : s.buf = []) :
+    (step s e).policy = .immediate ∧ (step s e).buf = [] := by
+  cases e with
+  | accept d ps =>
+    refine ⟨(accept_policy s d ps).trans hp, ?_⟩
+    have : s.policy.isFlush (s.bufPayload + payloadLen ps) = true := by rw [hp]; rfl
+    exact (accept_cut s d ps this).1
+  | tick =>
+    have : tick s = s := by unfold tick; rw [hp]; rfl
+    show (tick s).policy = .immediate ∧ (tick s).buf = []
+    rw [this]; exact ⟨hp, hb⟩
+  | flush => exact ⟨(cut_policy s).trans hp, cut_buf s⟩
+  | ack rs als =>
+    obtain ⟨st, wa, h'⟩ := ack_frame s rs als
+    show (ack s rs als).policy = .immediate ∧ (ack s rs als).buf = []
+    rw [h']; exact ⟨hp, hb⟩
+  | closeFlush => exact ⟨(cut_policy s).trans hp, cut_buf s⟩
+  | closeRequest => exact ⟨hp, hb⟩
+
+theorem imm_run : ∀ (evs : List Ev) (s : St), s.policy = .immediate → s.buf = [] →
+    (run s evs).policy = .immediate ∧ (run s evs).buf = [] := by
+  intro evs
+  induction evs with
+  | nil => intro s hp hb; exact ⟨hp, hb⟩
+  | cons e r ih =>
+    intro s hp hb
+    obtain ⟨h1, h2⟩ := imm_step s e hp hb
+    rw [run_cons]; exact ih _ h1 h2
+
 end Iscp.Up
